@@ -27,11 +27,14 @@ from . import tokens as tk
 
 HTML_SPECIALS = set('&<>"\'')
 TEX_SPECIALS = set('\\{}$#%&_^~')
-TRACKED = sorted(HTML_SPECIALS | TEX_SPECIALS | set(' a\n[]|*-/:@+=?.é`'))
+TRACKED = sorted(HTML_SPECIALS | TEX_SPECIALS | set(' a\n[]|*-/:@+=?.é`{}'))
 
 
 class Taint(AbstractValue):
-    def __init__(self, label, images=None, allowed=None, imprecise=False):
+    LOSSY = ('strip', 'lstrip', 'rstrip', 'lower', 'upper', 'casefold', 'replace', 'translate', 'expandtabs', 're.sub')
+
+    def __init__(self, label, images=None, allowed=None, imprecise=False, ops=()):
+        self.ops = tuple(ops)
         self.label = label
         self.images = dict(images) if images is not None else {c: c for c in TRACKED}
         self.allowed = set(allowed) if allowed is not None else set(TRACKED)
@@ -42,12 +45,16 @@ class Taint(AbstractValue):
         changed = {c: i for c, i in self.images.items() if c != i}
         return 'Taint(%s%s)' % (self.label, (' ' + repr(changed)) if changed else ' raw')
 
-    def clone(self, images=None, imprecise=None, label=None):
+    def clone(self, images=None, imprecise=None, label=None, op=None):
         return Taint(label or self.label, images if images is not None else self.images, self.allowed,
-                     self.imprecise if imprecise is None else imprecise)
+                     self.imprecise if imprecise is None else imprecise, self.ops + ((op,) if op else ()))
+
+    def lossy(self):
+        return [o for o in self.ops if o in self.LOSSY]
 
     def mapped(self, fn):
         return self.clone({c: fn(i) for c, i in self.images.items()})
+
 
     def is_raw(self):
         return all(self.images[c] == c for c in self.images)
@@ -56,11 +63,16 @@ class Taint(AbstractValue):
         if name == 'replace' and len(args) >= 2 and isinstance(args[0], str) and isinstance(args[1], str):
             old, new = args[0], args[1]
             t = self.mapped(lambda i: i.replace(old, new))
+            t.ops = self.ops + ('replace',)
             if len(old) != 1:
                 t.imprecise = True
             return t
         if name in ('strip', 'lstrip', 'rstrip', 'lower', 'casefold', 'upper', 'expandtabs'):
-            return self.clone()
+            return self.clone(op=name)
+        if name in ('ljust', 'rjust', 'center', 'zfill'):
+            t = self.clone(op='pad')
+            t.extra_labels = tuple(getattr(self, 'extra_labels', ())) + tuple(_labels_of(a) for a in args)
+            return t
         if name in ('startswith', 'endswith', 'isspace', 'isdigit', 'isupper', 'isalpha'):
             return Cond(('strtest', name, _freeze(args), self.prov))
         if name in ('split', 'splitlines', 'rsplit'):
@@ -68,11 +80,15 @@ class Taint(AbstractValue):
         if name == 'encode':
             return self.clone()
         if name == 'format':
+            if any(c in self.allowed and c in self.images.get(c, c) for c in '{}'):
+                raise Raised(ExcVal('ValueError', ('document text (%s) is used as a str.format template' % self.label,)))
             return Unknown('taint-as-template')
         if name == 'translate' and len(args) == 1 and isinstance(args[0], dict) and not any(
                 is_abstract(x) for x in args[0].values()):
             table = args[0]
-            return self.mapped(lambda i: i.translate(table))
+            t = self.mapped(lambda i: i.translate(table))
+            t.ops = self.ops + ('translate',)
+            return t
         if name == 'translate':
             return Unknown('translate')
         if name in ('find', 'index', 'count'):
@@ -115,6 +131,21 @@ class Taint(AbstractValue):
 
     def abs_isinstance(self, interp, c):
         return getattr(c, 'dotted', None) == 'builtins.str'
+
+
+def _labels_of(v):
+    """Attribute labels carried by an abstract int/string (for def-use checks)."""
+    out = []
+
+    def walk(p):
+        if isinstance(p, tuple):
+            if len(p) == 2 and p[0] in ('taint', 'attr') and isinstance(p[1], str):
+                out.append(p[1])
+            for x in p:
+                walk(x)
+    walk(getattr(v, 'tag', None))
+    walk(getattr(v, 'prov', None))
+    return tuple(out)
 
 
 class Markup(AbstractValue):
@@ -232,6 +263,12 @@ class Skel(AbstractValue):
         if name in ('startswith', 'endswith'):
             return Cond(('strtest', name, _freeze(args), id(self)))
         if name == 'format':
+            for part in self.parts:
+                if isinstance(part, Hole) and isinstance(part.value, Taint):
+                    t = part.value
+                    if any(c in t.allowed and c in t.images.get(c, c) for c in '{}'):
+                        raise Raised(ExcVal('ValueError', ('document text (%s) is used as a str.format template: braces in '
+                                                           'it are replacement fields' % t.label,)))
             return Unknown('skel-as-template')
         if name == 'encode':
             return self
@@ -383,7 +420,7 @@ def install_string_hooks(it):
     def re_sub(interp, args, kwargs):
         pattern, repl, subj = (list(args) + [None, None, None])[:3]
         if isinstance(subj, Taint):
-            return subj.clone(imprecise=True, label=subj.label + ':re.sub')
+            return subj.clone(imprecise=True, label=subj.label + ':re.sub', op='re.sub')
         if isinstance(subj, (Skel, Markup)):
             return Unknown('re.sub(markup)')
         if not (isinstance(pattern, str) and isinstance(repl, str) and isinstance(subj, str)):
